@@ -1645,6 +1645,7 @@ PY_BUILTINS = {
     "set": _py_set, "zip": lambda ex, a, k, pc: list(zip(*a)), "enumerate": lambda ex, a, k, pc: list(enumerate(a[0])),
     "int": lambda ex, a, k, pc: a[0] if is_z3(a[0]) else int(a[0]), "float": lambda ex, a, k, pc: a[0],
     "round": lambda ex, a, k, pc: a[0] if is_z3(a[0]) else round(a[0]),
+    "getattr": lambda ex, a, k, pc: ex.getattr(a[0], a[1]),
     "max": lambda ex, a, k, pc: max(*a) if all(concrete(x) for x in a) else z3.If(zint(a[0]) >= zint(a[1]), zint(a[0]), zint(a[1])),
     "min": lambda ex, a, k, pc: min(*a) if all(concrete(x) for x in a) else z3.If(zint(a[0]) <= zint(a[1]), zint(a[0]), zint(a[1])),
     "isinstance": None, "super": None, "str": lambda ex, a, k, pc: "<str>", "ValueError": None, "any": lambda ex, a, k, pc: any(a[0]),
